@@ -151,7 +151,7 @@ func checkC10(c *Ctx) {
 	c.c10Paths()
 	// what writeIndex reports as written is what a fresh process will read: the temporary
 	// index is installed only after a successful flush and close (decided by C11's rule)
-	nB := c.borrow(checkC11, "C11/ATOMIC/index/install", "C10/PERSIST/index-install", "the new index replaces the old one only after its buffered writer was flushed and the file closed without error: a write fault cannot be reported as success while an incomplete index is installed")
+	nB := c.borrow(checkC11, "C11/ATOMIC/index/", "C10/PERSIST/index-install", "the new index replaces the old one only after its buffered writer was flushed and the file closed without error: a write fault cannot be reported as success while an incomplete index is installed")
 	r.Floor("C10/PERSIST/index-install", "borrowed obligations", nB, 1)
 	// an index written back from a snapshot that was loaded in an earlier critical section
 	// silently undoes, on disk, the deliveries and removals committed in between (decided by
